@@ -220,3 +220,87 @@ package fpgo
 //@   ensures one-consumer: tr_len == old(tr_len)+1 && tr_kind[old(tr_len)] == 4
 //@   ensures registered: !old(actorSelf.isClosed) ==> r0.parent == actorSelf && has(actorSelf.children, r0.id) && actorSelf.children[r0.id] == r0
 //@   ensures not-registered: old(actorSelf.isClosed) ==> r0.parent == nil && unchangedmap(actorSelf.children)
+
+// ===================================================================================================
+// C10 - Publisher: each value delivered exactly once per live subscription, in order; (un)subscribing never disturbs a
+// delivery in progress.  view(p) = the sequence p.subscribers.
+// Key fact ("old cells"): Subscribe and Unsubscribe never write a cell below the old length of the old backing array,
+// so the snapshot a running Publish iterates is immutable - whether the change comes from a re-entrant callback or from
+// another goroutine (both act only through these locked methods).
+
+//@ define PUB_WF(p) = forall(k, 0, len(p.subscribers), p.subscribers[k] != nil)
+
+//@ func (PublisherDef).Subscribe
+//@   prop C10
+//@   opt lockguard=subscribers:subscribeM
+//@   modifies publisherSelf, publisherSelf.subscribers
+//@   requires publisherSelf != nil && PUB_WF(publisherSelf)
+//@   ensures appended: len(publisherSelf.subscribers) == old(len(publisherSelf.subscribers))+1 && publisherSelf.subscribers[old(len(publisherSelf.subscribers))] == r0 && forall(i, 0, old(len(publisherSelf.subscribers)), publisherSelf.subscribers[i] == old(publisherSelf.subscribers[i]))
+//@   ensures new-subscription: r0 != nil && fresh(r0) && r0.OnNext == sub.OnNext
+//@   ensures old-cells: forall(i, 0, old(len(publisherSelf.subscribers)), old(publisherSelf.subscribers)[i] == old(publisherSelf.subscribers[i]))
+//@   ensures wf: PUB_WF(publisherSelf)
+
+// Unsubscribe removes every occurrence of s and nothing else; what remains keeps its order (g: position in the old view)
+//@ func (PublisherDef).Unsubscribe
+//@   prop C10
+//@   opt lockguard=subscribers:subscribeM
+//@   modifies publisherSelf
+//@   requires publisherSelf != nil && PUB_WF(publisherSelf)
+//@   ensures gone: forall(j, 0, len(publisherSelf.subscribers), publisherSelf.subscribers[j] != s)
+//@   ensures shorter: len(publisherSelf.subscribers) <= old(len(publisherSelf.subscribers))
+//@   ensures old-cells: forall(i, 0, old(len(publisherSelf.subscribers)), old(publisherSelf.subscribers)[i] == old(publisherSelf.subscribers[i]))
+//@   ensures wf: PUB_WF(publisherSelf)
+//@ func (PublisherDef).Unsubscribe loop 0
+//@   invariant searching: !isAnyMatching && subscribers == old(publisherSelf.subscribers) && publisherSelf.subscribers == old(publisherSelf.subscribers) && forall(k, 0, _i, subscribers[k] != s)
+
+// Publish: the snapshot S taken under the lock is delivered to, one event per subscriber with an OnNext, in order:
+// cnt[k] = number of deliveries before subscriber k
+//@ func (PublisherDef).Publish
+//@   prop C10
+//@   opt callbacks=effectful
+//@   opt effects=trace
+//@   opt lit-calls=inline
+//@   opt callback-havoc=publisherSelf
+//@   opt lockguard=subscribers:subscribeM
+//@   ghost cnt (Array Int Int)
+//@   ghostinit cnt = store(cnt, 0, 0)
+//@   requires publisherSelf != nil && PUB_WF(publisherSelf) && (publisherSelf.subOn != nil ==> !publisherSelf.subOn.isClosed)
+//@   ensures counted: cnt[0] == 0 && forall(k, 0, old(len(publisherSelf.subscribers)), cnt[k+1] == cnt[k] + ite(old(publisherSelf.subscribers[k]).OnNext != nil, 1, 0)) && tr_len == old(tr_len) + cnt[old(len(publisherSelf.subscribers))]
+//@   ensures delivered: forall(k, 0, old(len(publisherSelf.subscribers)), old(publisherSelf.subscribers[k]).OnNext != nil ==> (tr_kind[old(tr_len)+cnt[k]] == 1 && tr_fn[old(tr_len)+cnt[k]] == old(publisherSelf.subscribers[k]).OnNext && tr_arg[old(tr_len)+cnt[k]] == result) || tr_kind[old(tr_len)+cnt[k]] == 5)
+//@ func (PublisherDef).Publish loop 0
+//@   ghostset cnt = store(cnt, _i+1, cnt[_i] + ite(subscribers[_i].OnNext != nil, 1, 0))
+//@   invariant snapshot: subscribers == old(publisherSelf.subscribers) && forall(k, 0, len(subscribers), subscribers[k] == old(publisherSelf.subscribers[k]) && subscribers[k] != nil && subscribers[k].OnNext == old(publisherSelf.subscribers[k].OnNext))
+//@   invariant counted: cnt[0] == 0 && 0 <= cnt[_i] && forall(k, 0, _i, cnt[k+1] == cnt[k] + ite(subscribers[k].OnNext != nil, 1, 0) && 0 <= cnt[k]) && tr_len == old(tr_len) + cnt[_i]
+//@   invariant mono: forall(k, 0, _i, cnt[k] + ite(subscribers[k].OnNext != nil, 1, 0) <= cnt[_i])
+//@   invariant delivered: forall(k, 0, _i, subscribers[k].OnNext != nil ==> (tr_kind[old(tr_len)+cnt[k]] == 1 && tr_fn[old(tr_len)+cnt[k]] == subscribers[k].OnNext && tr_arg[old(tr_len)+cnt[k]] == result) || tr_kind[old(tr_len)+cnt[k]] == 5)
+// the delivering closure (it may run later, on the handler): one call of this subscription's OnNext with the published value
+//@ func (PublisherDef).Publish lit 1
+//@   prop C10
+//@   opt callbacks=effectful
+//@   opt effects=trace
+//@   requires s != nil && s.OnNext != nil
+//@   ensures deliver: tr_len == old(tr_len)+1 && tr_kind[old(tr_len)] == 1 && tr_fn[old(tr_len)] == s.OnNext && tr_arg[old(tr_len)] == result
+
+//@ func (PublisherDef).SubscribeOn
+//@   prop C10
+//@   modifies publisherSelf
+//@   requires publisherSelf != nil
+//@   ensures set: r0 == publisherSelf && publisherSelf.subOn == h && publisherSelf.subscribers == old(publisherSelf.subscribers)
+
+//@ func PublisherNewGenerics
+//@   prop C10
+//@   ensures made: r0 != nil && fresh(r0) && len(r0.subscribers) == 0 && r0.subOn == nil && r0.origin == nil
+
+// Map: a fresh publisher whose origin is the receiver; the forwarding subscription calls fn once per value
+//@ func (PublisherDef).Map
+//@   prop C10
+//@   modifies publisherSelf, publisherSelf.subscribers
+//@   requires publisherSelf != nil && PUB_WF(publisherSelf)
+//@   ensures derived: r0 != nil && fresh(r0) && r0.origin == publisherSelf
+//@   ensures subscribed: len(publisherSelf.subscribers) == old(len(publisherSelf.subscribers))+1 && forall(i, 0, old(len(publisherSelf.subscribers)), publisherSelf.subscribers[i] == old(publisherSelf.subscribers[i]))
+//@ func (PublisherDef).Map lit 0
+//@   prop C10
+//@   opt callbacks=effectful
+//@   opt effects=trace
+//@   requires next != nil && fn != nil && PUB_WF(next) && (next.subOn != nil ==> !next.subOn.isClosed)
+//@   ensures mapped-first: tr_len >= old(tr_len)+1 && tr_kind[old(tr_len)] == 1 && tr_fn[old(tr_len)] == fn && tr_arg[old(tr_len)] == in
